@@ -107,11 +107,11 @@ def _run_integrate(cls_name, modname, drivers, tv, rep, fwd=None, ham=False, eve
     return "return", sol, cap
 
 
-def _a_integrate_times(chk):
+def _a_integrate_times(chk, only=None):
     T = [sp.Symbol(f"T{i}", real=True) for i in range(3)]
     tv = to_obj_array(T)
     rep = {T[0]: 0, T[1]: 1, T[2]: 2}
-    for cls_name, modname, drivers, kind in INTEGRATORS:
+    for cls_name, modname, drivers, kind in [x for x in INTEGRATORS if only is None or x[0] in only]:
         for fwd in ((None,) if cls_name != "_ExtendedSymplectic" else (1, -1)):
             for ham in ((False, True) if cls_name != "_ExtendedSymplectic" else (True,)):
                 outcome, sol, cap = _run_integrate(cls_name, modname, drivers, tv, rep, fwd=fwd, ham=ham)
